@@ -156,6 +156,30 @@ CLAIMED["C03"] = {
             "2 genuine defects found by the re-layout pairs were repaired in /repo.",
     "design": "DESIGN.md §5 C03",
 }
+CLAIMED["C04"] = {
+    "text": "Coq theorems: the transform stage (cleanups, smart quotes, ellipses) leaves the literal content of the document tree untouched "
+            "-- tree shape, every code block, code span, HTML, escaped character, footnote label, link/image destination and title, table "
+            "alignment -- for EVERY rewrite function (so independently of the typography code), including the coalescing of text across "
+            "soft breaks; smart_quotes copies template tags at the same positions; fences and code-span delimiters are adequate for every "
+            "content. The renderer/wrapper pipeline is modelled and compared with fill_markdown; on the implementation the sequence of "
+            "literal spans (code exactly; spans, tags, HTML, titles up to whitespace runs) of the output is compared with that of the "
+            "parser input on documents built for the purpose (fence-like / prefix-like / blank code lines in ten container nestings, "
+            "paragraphs dense with spans, tags, URLs, titles under typography on).",
+    "note": "Marko is the span extractor on both sides and is not modelled. Defects found earlier through this oracle (code split at "
+            "form feeds, code span delimiters, titles re-quoted, destinations with spaces) were repaired in /repo.",
+    "design": "DESIGN.md §5 C04",
+}
+CLAIMED["C10"] = {
+    "text": "Coq theorem: doc_cleanups keeps the block structure and maps every leaf through the documented rewrite (a heading whose whole "
+            "content is bold loses the bold, bold-italic becomes italic), all other leaves untouched at any depth; the transform stage keeps "
+            "every literal (C04). List spacing is decided by running the extracted model and the implementation under preserve / loose / "
+            "tight: the three outputs agree on every line that is not empty up to quote markers and indentation, loose makes every list of "
+            "two or more items loose, tight makes every list of single-block items tight, preserve keeps the tightness of the input; "
+            "cleanups on vs off: tree(on) = documented rewrite of tree(off) and all non-heading lines byte-identical.",
+    "note": "The list-spacing statement is not yet a Coq theorem (partial): it is evaluated on generated documents. Findings D-42 and D-56 "
+            "(tightness not preserved around headings / nested loose lists) are listed.",
+    "design": "DESIGN.md §5 C10",
+}
 PENDING_REASON = "check not built yet in this revision (work in progress; see DESIGN.md §7 staging)"
 
 def main():
